@@ -279,6 +279,8 @@ const S1E3: Shape = Shape { s: 1, occ: [false, false, false], free: 3, ext: 0 };
 const S1O0: Shape = Shape { s: 1, occ: [true, false, false], free: 0, ext: 0 };
 const S1O1: Shape = Shape { s: 1, occ: [true, false, false], free: 1, ext: 1 };
 const S1O3: Shape = Shape { s: 1, occ: [true, false, false], free: 3, ext: 0 };
+const S1O2: Shape = Shape { s: 1, occ: [true, false, false], free: 2, ext: 0 };
+const S2O2: Shape = Shape { s: 2, occ: [true, true, false], free: 2, ext: 0 };
 const S2A: Shape = Shape { s: 2, occ: [true, false, false], free: 1, ext: 0 };
 const S2B: Shape = Shape { s: 2, occ: [true, true, false], free: 0, ext: 0 };
 const S2F: Shape = Shape { s: 2, occ: [false, true, false], free: 4, ext: 0 };
@@ -291,6 +293,9 @@ contract!(simple_provision_s1_full, 6, Sm, op_provision::<Sm>(&S1O3, false));
 contract!(simple_provision_s1_small, 6, Sm, op_provision::<Sm>(&S1O1, true));
 contract!(simple_provision_s1_small_full, 6, Sm, op_provision::<Sm>(&S1E3, true));
 contract!(simple_provision_s2_full, 6, Sm, op_provision::<Sm>(&S2F, false));
+// occupied slots do not count against the free-list capacity
+contract!(simple_provision_s1_occ_free2, 6, Sm, op_provision::<Sm>(&S1O2, false));
+contract!(simple_provision_s2_occ2_free2, 6, Sm, op_provision::<Sm>(&S2O2, false));
 contract!(simple_new_pdu_s1_empty, 6, Sm, op_new_pdu::<Sm>(&S1O0));
 contract!(simple_new_pdu_s1_some, 6, Sm, op_new_pdu::<Sm>(&S1E2));
 contract!(simple_new_pdu_s2, 6, Sm, op_new_pdu::<Sm>(&S2A));
